@@ -36,3 +36,17 @@ def little_class_with_optional_int_default(fam):
                 and f["opt"].get("default") in (1, 5, 258):
             return True
     return False
+
+
+def far_placeholder_then_backward_empty(fam):
+    """An Em placed with at() (an end mark) followed, later in the declaration, by a positioned byte string that may be empty."""
+    for d in fam["decls"].values():
+        seen_em = False
+        for f in d["fields"]:
+            m = f.get("move")
+            if f["t"] == "em" and m and m["op"] == "at":
+                seen_em = True
+            elif seen_em and f["t"] == "data" and m and m["op"] in ("at", "shift") and not any(k in f for k in ("rep", "opt")) and \
+                    (f.get("mode") == "dyn" or (f.get("mode") == "const" and f["size"] == 0)):
+                return True
+    return False
